@@ -103,7 +103,7 @@ func defaults(b Bounds) Bounds {
 		b.MaxAlloc = 1024
 	}
 	if b.TimeoutS == 0 {
-		b.TimeoutS = 20
+		b.TimeoutS = 60
 	}
 	if b.MaxTimerFires == 0 {
 		b.MaxTimerFires = 2
@@ -284,12 +284,19 @@ func cmdCheck(args []string) int {
 				wspec.ReplayRepeat = 0
 				res := nativeReplay(&wspec, dir, h.Values, h.Choices, r.Bounds.Params)
 				replayed++
+				timing := spec.ReplayRepeat > 0 || r.Bounds.Threads
 				if !res.Ran {
 					fmt.Printf("   WITNESS-REPLAY-ERROR %s: %s\n", l, res.Err)
 					exit = max(exit, 3)
-				} else if (!res.Covers[l] && spec.ReplayRepeat == 0) || unexpectedFailures(res.Failed, r.Violations) || res.AssumeFailed {
-					fmt.Printf("   ENGINE-MISMATCH witness for cover %q does not reproduce natively (covers=%v failed=%v assumeFailed=%v) dir=%s\n", l, res.Covers, res.Failed, res.AssumeFailed, dir)
-					exit = max(exit, 3)
+				} else if (!res.Covers[l] && !timing) || unexpectedFailures(res.Failed, r.Violations) || res.AssumeFailed {
+					if timing {
+						// the native run of a multi-threaded harness depends on the Go scheduler and on real-time
+						// deadlines of the harness: not reproducing a witness is reported, not treated as a mismatch
+						fmt.Printf("   WITNESS-NOT-REPRODUCED (schedule/timing dependent harness) cover %q: covers=%v failed=%v dir=%s\n", l, res.Covers, res.Failed, dir)
+					} else {
+						fmt.Printf("   ENGINE-MISMATCH witness for cover %q does not reproduce natively (covers=%v failed=%v assumeFailed=%v) dir=%s\n", l, res.Covers, res.Failed, res.AssumeFailed, dir)
+						exit = max(exit, 3)
+					}
 				} else {
 					r.Replayed++
 				}
